@@ -536,3 +536,4 @@ PROPS['C07']['required_tags'] += ['toggle-small-node-pool', 'reinsert-into-empty
 PROPS['C12']['waivers'] = {'ticket-counters-near-wrap': 'ticket-layout-not-two-32-bit-counters'}
 PROPS['C08']['required_tags'] += ['drain-and-refill']
 PROPS['C08']['waivers'] = {t: 'hook-links-not-walkable' for t in ('remove-root', 'remove-first-child', 'remove-middle-sibling', 'remove-last-sibling', 'remove-only-child', 'remove-leaf', 'pop-odd-children', 'pop-even-children')}
+PROPS['C06']['waivers'] = {x: 'colour-not-readable' for x in RM_TAGS + INS_TAGS}
